@@ -2,3 +2,4 @@ import Props.C12
 import Props.C09
 import Props.C11
 import Props.C06
+import Props.C08
